@@ -56,21 +56,40 @@ theorem C10_old_ssa_key_counterexample : oldSsaKey ['x'] (some ['0']) = oldSsaKe
 def isIdentChar (c : Char) : Bool := c.isAlphanum || c == '_' || c == '$'
 def isIdentifier (s : String) : Bool := s.toList.all isIdentChar
 
-/-- The names desugaring invents — `<Template>@<line>_<offset>` for the component of an anonymous component (`Desugar.anonBody`,
-    since the `fix:` after 1121aa8; until then `<Template>_<line>_<offset>`, which a program can also declare: F-C10-generated-names)
-    and `anon_var@<line>_<offset>` for the loop counters (`Desugar`'s `while` arm, since 463752d) — are not identifiers, whatever the
-    template name and the label: no declaration or use written in a program resolves to one of them, or the other way round. -/
+/-- The names desugaring invents — `<Template>#<line>_<offset>` for the component of an anonymous component (`Desugar.anonBody`;
+    until add4a3b `<Template>_<line>_<offset>`, which a program can also declare: F-C10-generated-names; between add4a3b and f5059a1
+    `<Template>@..`, which for a template called `anon_var` begins like a generated counter) and `anon_var@<line>_<offset>` for the
+    loop counters (`Desugar`'s `while` arm, since 463752d) — are not identifiers, whatever the template name and the label: no
+    declaration or use written in a program resolves to one of them, or the other way round. -/
 theorem C10_generated_names_fresh (id label : String) :
-    isIdentifier (id ++ "@" ++ label) = false ∧ isIdentifier ("anon_var@" ++ label) = false := by
+    isIdentifier (id ++ "#" ++ label) = false ∧ isIdentifier ("anon_var@" ++ label) = false := by
   constructor
   · unfold isIdentifier
     rw [String.toList_append, String.toList_append, List.all_append, List.all_append]
-    have : ("@" : String).toList.all isIdentChar = false := by decide
+    have : ("#" : String).toList.all isIdentChar = false := by decide
     rw [this]; simp
   · unfold isIdentifier
     rw [String.toList_append, List.all_append]
     have : ("anon_var@" : String).toList.all isIdentChar = false := by decide
     rw [this]; simp
+
+/-- … and the two generated forms cannot be confused with each other: the first character of a component name that is not an
+    identifier character is `#`, that of a counter is `@` (`is_generated_counter` looks for the prefix `anon_var@`) -/
+theorem C10_component_is_no_counter (id label rest : String) (hid : isIdentifier id = true) :
+    (id ++ "#" ++ label).toList ≠ ("anon_var@" ++ rest).toList := by
+  intro h
+  have h1 : ((id ++ "#" ++ label).toList.dropWhile isIdentChar).head? = some '#' := by
+    rw [String.toList_append, String.toList_append, List.append_assoc]
+    unfold isIdentifier at hid
+    rw [List.dropWhile_append_of_pos (by simpa [List.all_eq_true] using hid)]
+    rfl
+  have h2 : (("anon_var@" ++ rest).toList.dropWhile isIdentChar).head? = some '@' := by
+    rw [String.toList_append]
+    have : ("anon_var@" : String).toList = "anon_var".toList ++ ['@'] := by decide
+    rw [this, List.append_assoc, List.dropWhile_append_of_pos (by decide)]
+    rfl
+  rw [h, h2] at h1
+  cases h1
 
 /-- … while the old form was an identifier whenever the template name is one -/
 example : isIdentifier ("Two" ++ "_" ++ "14_255") = true := by decide
